@@ -69,10 +69,13 @@ def diff(exp, got, path=''):
         ke = {str(k): k for k in exp}
         kg = {str(k): k for k in got}
         if set(ke) != set(kg):
-            return path + '<keys:missing=%s,extra=%s>' % (','.join(sorted(set(ke) - set(kg))),
-                                                          ','.join(sorted(set(kg) - set(ke))))
+            miss, extra = sorted(set(ke) - set(kg)), sorted(set(kg) - set(ke))
+            # numeric keys (flowspec component numbers) or many keys: one root cause must not give one signature per code
+            if all(k.isdigit() for k in miss + extra) or len(miss) + len(extra) > 2:
+                miss, extra = (['#'] if miss else []), (['#'] if extra else [])
+            return path + '<keys:missing=%s,extra=%s>' % (','.join(miss), ','.join(extra))
         for k in sorted(ke):
-            d = diff(exp[ke[k]], got[kg[k]], '%s/%s' % (path, k))
+            d = diff(exp[ke[k]], got[kg[k]], '%s/%s' % (path, '#' if k.isdigit() else k))
             if d:
                 return d
         return None
